@@ -10,6 +10,7 @@ package file
 // more or less, and " " versus "".
 
 import (
+	"crypto/sha256"
 	"fmt"
 	"os"
 	"strings"
@@ -46,13 +47,24 @@ func c36Renormalise(s string) string {
 	return strings.Replace(s, decomposed, composed, 1)
 }
 
+// c36LongKeyDigest: HMAC replaces a key longer than its block size (64 bytes
+// for SHA-256) by the key's digest; a KDF built on HMAC may therefore treat a
+// long password and the 32 raw digest bytes as the same password.
+func c36LongKeyDigest(s string) string {
+	if len(s) <= 64 {
+		return s
+	}
+	d := sha256.Sum256([]byte(s))
+	return string(d[:])
+}
+
 func c36DropLast(s string) string {
 	_, n := utf8.DecodeLastRuneInString(s)
 	return s[:len(s)-n]
 }
 
 // quick runs the first c36QuickVariants variants, thorough all of them
-const c36QuickVariants = 6
+const c36QuickVariants = 7
 
 var c36Variants = []c36Variant{
 	{"trailing-space", func(s string) string { return s + " " }},
@@ -61,19 +73,20 @@ var c36Variants = []c36Variant{
 	{"trailing-ideographic-space", func(s string) string { return s + "\u3000" }},
 	{"case-change", c36SwapCase},
 	{"unicode-normalisation", c36Renormalise},
-	{"trailing-tab", func(s string) string { return s + "\t" }},
 	{"trailing-nul", func(s string) string { return s + "\x00" }},
+	{"trailing-tab", func(s string) string { return s + "\t" }},
 	{"leading-newline", func(s string) string { return "\n" + s }},
 	{"trailing-nbsp", func(s string) string { return s + "\u00a0" }},
 	{"leading-bom", func(s string) string { return "\ufeff" + s }},
 	{"char-appended", func(s string) string { return s + "x" }},
 	{"char-removed", c36DropLast},
+	{"hmac-long-key-digest", c36LongKeyDigest},
 }
 
 // base passwords: empty (so that " " vs "" is a case), a cased word with a
 // composed character; thorough adds a one-letter, a Cyrillic and an
 // already-space-padded password
-var c36NearMissBases = []string{"", "Secret\u00e9", "p", "пароль", " x "}
+var c36NearMissBases = []string{"", "Secret\u00e9", "p", "пароль", " x ", strings.Repeat("x", 65)}
 
 const c36QuickBases = 2
 
@@ -113,7 +126,16 @@ func TestVerifC36FileNearMiss(t *testing.T) {
 			defer os.RemoveAll(dir)
 			s := New(dir)
 			k1, created, err := s.Key("a", stored)
-			x.Check(err == nil && created && k1 != nil, "create-failed", "Key(a,%q) on an empty keystore = created %v, err %v", stored, created, err)
+			if err != nil {
+				// a keystore may refuse to store a key under some password (e.g. one with
+				// control characters); creation with ordinary passwords is checked by the
+				// inputs harness. Nothing was stored, nothing can be opened.
+				x.Logf("creation refused: %v", err)
+				x.Outcome("creation-refused")
+				x.Check(k1 == nil && !created && len(c36Snapshot(x, dir)) == 0, "refused-creation-left-key", "Key(a,%q) failed with %v but returned or stored a key", stored, err)
+				return
+			}
+			x.Check(created && k1 != nil, "create-failed", "Key(a,%q) on an empty keystore = created %v, err %v", stored, created, err)
 			snap := c36Snapshot(x, dir)
 			k2, created, err := s.Key("a", other)
 			x.Outcome("near-miss:" + c36ErrClass(err))
